@@ -196,3 +196,5 @@ func WriteFile(name string, data []byte, perm FileMode) error {
 	}
 	return err
 }
+
+func init() { zzvrt.SysStdout, zzvrt.SysStderr = &StdoutBuf, &StderrBuf }
